@@ -26,18 +26,23 @@ def model(chk, D, M, kind, S=1 << 8, mode="accumulate", inv=INV6, expect=None, o
     return res
 
 
+# coordinate of the centre of cell 0 in units of h, tied to the spacing so that the quick tier sees a grid origin other than h/2
+SFRAC = {0.25: 0.5, 2.0: 0.25, 2.0**-6: 0.0, 4.0: -3.25}
+
+
 def drive(chk, D, kind, real_t, h, cells, residues, M, grid, bump):
-    """markers at lattice positions (i + r/M) h + h/2, optionally bumped by ulps."""
+    """markers at lattice positions (i + r/M) h + sfrac h (cell centres at i h + sfrac h), optionally bumped by ulps."""
+    sfrac = SFRAC[h]
     N = len(cells)
     pos = np.empty((D, N), dtype=real_t)
     for n, (i, r) in enumerate(zip(cells, residues)):
         for k in range(D):
             frac = r[k] / M if r[k] is not None else float(np.random.default_rng(hash((i, k, n)) % 2**32).random())
-            x = real_t((i[k] + frac) * h + h / 2)
+            x = real_t((i[k] + frac) * h + sfrac * h)
             if bump:
                 x = np.nextafter(x, real_t(np.inf if bump > 0 else -np.inf))
             pos[k, n] = x
-    c = interp.comm(D, h, N, real_t, kind, 1)
+    c = interp.comm(D, h, N, real_t, kind, 1, sfrac)
     idx, w = interp.support_and_weights(c, pos, D, real_t)
     eps = float(np.finfo(real_t).eps)
     phi = interp.PHI[kind]
@@ -63,7 +68,7 @@ def drive(chk, D, kind, real_t, h, cells, residues, M, grid, bump):
         cellc = []
         for k in range(D):
             ax = D - 1 - k  # array axis of physical axis k in the window
-            d = np.array([(int(idx[k, n]) + j) + 0.5 - float(pos[k, n]) / h for j in (-1, 0, 1, 2)])
+            d = np.array([(int(idx[k, n]) + j) + sfrac - float(pos[k, n]) / h for j in (-1, 0, 1, 2)])
             v = np.array([phi(x) for x in d])
             sh = [1] * D
             sh[ax] = 4
@@ -94,7 +99,7 @@ def drive(chk, D, kind, real_t, h, cells, residues, M, grid, bump):
             coord = np.zeros(shape, dtype=real_t)
             sh = [1] * D
             sh[ax] = shape[ax]
-            coord[...] = ((np.arange(shape[ax]) + 0.5) * h).astype(real_t).reshape(sh)
+            coord[...] = ((np.arange(shape[ax]) + sfrac) * h).astype(real_t).reshape(sh)
             c.eulerian_to_lagrangian_grid_interpolation_kernel(lag_grid_field=out, eul_grid_field=coord, interp_weights=w, nearest_eul_grid_index_to_lag_grid=idx)
             if np.abs(out.astype(float) - pos[k].astype(float)).max() > 32 * eps * max(shape) * h:
                 errs.append(f"coordinate field along axis {k} interpolates to {out} at markers {pos[k]}")
